@@ -27,6 +27,28 @@ def normalize_result(case, res):
     return TG.normalize_unpack_result(case, res)
 
 
+def grow_by_merge(rng, c, cfg):
+    """grow one of the lists by a later merge (append / prepend / a longer list over a shorter one): the final
+    configuration is the same, so is the path of the faulty setting"""
+    lists = list_positions(cfg)
+    if not lists:
+        return None
+    pth, L = rng.pick(lists)
+    k = 1 + rng.below(len(L) - 1)
+    how = rng.pick(["Append", "Prepend", "longer"])
+    def nestp(v):
+        for seg in reversed(pth):
+            v = M([(seg, v)])
+        return v
+    if how == "Append":
+        c["from"] = TG.replace_at(cfg, pth, A(L[:k])); c["merges"] = [{"b": nestp(A(L[k:])), "opts": [opt("Append")]}]
+    elif how == "Prepend":
+        c["from"] = TG.replace_at(cfg, pth, A(L[k:])); c["merges"] = [{"b": nestp(A(L[:k])), "opts": [opt("Prepend")]}]
+    else:
+        c["from"] = TG.replace_at(cfg, pth, A(L[:k])); c["merges"] = [{"b": nestp(A(L)), "opts": []}]
+    return how
+
+
 def gen(rng, tier):
     n = 1500 if tier == "quick" else 15000
     made = 0
@@ -56,23 +78,8 @@ def gen(rng, tier):
              "_tag": "fault/" + kind, "_nt": p.count(".") >= 1,
              "_sig": "%s|%d|%s" % (kind, p.count("."), TG.type_sig(ty, 1))}
         if rng.chance(0.35):
-            # grow one of the lists by a later merge (append / prepend / a longer list over a shorter one): the final
-            # configuration is the same, so is the path of the faulty setting
-            lists = list_positions(cfg)
-            if lists:
-                pth, L = rng.pick(lists)
-                k = 1 + rng.below(len(L) - 1)
-                how = rng.pick(["Append", "Prepend", "longer"])
-                def nestp(v):
-                    for seg in reversed(pth):
-                        v = M([(seg, v)])
-                    return v
-                if how == "Append":
-                    c["from"] = TG.replace_at(cfg, pth, A(L[:k])); c["merges"] = [{"b": nestp(A(L[k:])), "opts": [opt("Append")]}]
-                elif how == "Prepend":
-                    c["from"] = TG.replace_at(cfg, pth, A(L[k:])); c["merges"] = [{"b": nestp(A(L[:k])), "opts": [opt("Prepend")]}]
-                else:
-                    c["from"] = TG.replace_at(cfg, pth, A(L[:k])); c["merges"] = [{"b": nestp(A(L)), "opts": []}]
+            how = grow_by_merge(rng, c, cfg)
+            if how:
                 c["_tag"] += "+grown"
                 c["_sig"] += "|grown-" + how
         elif rng.chance(0.2) or (rng.chance(0.6) and any(len(pth) >= 2 and tuple(path[:len(pth)]) == tuple(pth) for pth, _ in list_positions(cfg, minlen=1))):
